@@ -261,4 +261,39 @@ theorem render_denotes (rows : List LRow) : Denotes (render rows) (listingV rows
     unfold render
     simp only [lit_head, lit_tail, lit_kleases, List.append_assoc, List.cons_append, List.nil_append, List.append_nil]
 
+
+/-! ### a string text denotes only one string -/
+
+theorem escapeOf_u : escapeOf 'u' = none := by decide
+
+/-- **the string grammar is unambiguous**: the text between the quotation marks denotes at most one sequence of
+    characters — so what a JSON reader gets for a host name is exactly the stored host name and nothing else -/
+theorem strBody_unique : ∀ {t s s' : List Char}, StrBody t s → StrBody t s' → s = s' := by
+  intro t s s' h
+  induction h generalizing s' with
+  | nil => intro h'; cases h'; rfl
+  | plain c t s hc hq hb _ ih =>
+    intro h'
+    cases h' with
+    | plain _ _ s2 _ _ _ h2 => rw [ih h2]
+    | esc e c2 _ s2 _ _ => exact absurd rfl hb
+    | uni a b c2 d x y z w _ s2 _ _ _ _ _ _ => exact absurd rfl hb
+  | esc e c t s he _ ih =>
+    intro h'
+    cases h' with
+    | plain _ _ s2 _ _ hb _ => exact absurd rfl hb
+    | esc _ c2 _ s2 he2 h2 =>
+      rw [he] at he2; cases he2
+      rw [ih h2]
+    | uni a b c2 d x y z w _ s2 _ _ _ _ _ _ => rw [escapeOf_u] at he; cases he
+  | uni a b c d x y z w t s ha hb hc hd _ _ ih =>
+    intro h'
+    cases h' with
+    | plain _ _ s2 _ _ hbs _ => exact absurd rfl hbs
+    | esc _ c2 _ s2 he2 _ => rw [escapeOf_u] at he2; cases he2
+    | uni _ _ _ _ x2 y2 z2 w2 _ s2 ha2 hb2 hc2 hd2 _ h2 =>
+      rw [ha] at ha2; rw [hb] at hb2; rw [hc] at hc2; rw [hd] at hd2
+      cases ha2; cases hb2; cases hc2; cases hd2
+      rw [ih h2]
+
 end Erbium.LeaseReport
